@@ -148,6 +148,17 @@ type c09Gen struct {
 	bs  ast.Builders
 	pkg string
 	py  bool // Python lab: no date-time strings, no plain struct documents (they need class instances)
+	arrMax int // arrays of a document have 0..arrMax-1 elements (default 3)
+	dfltPct int // probability (percent) of drawing the declared default of a scalar that has one
+	hints  map[string][]JV // "Object.member" → values the veneers single out (constants pinned by `initialize`)
+	topHints map[string]JV // member → the constant the builder under test pins itself (top-level documents belong to that builder)
+}
+
+func (g *c09Gen) arrayLen() int {
+	if g.arrMax > 3 {
+		return g.r.intn(g.arrMax)
+	}
+	return g.r.intn(3)
 }
 
 func (g *c09Gen) object(ref *ast.RefType) (ast.Object, bool) {
@@ -248,6 +259,13 @@ func (g *c09Gen) scalar(t ast.Type, violate bool) (JV, bool, bool) {
 	s := t.Scalar
 	if s.Value != nil { // concrete scalar: the only value
 		return c09ConstJV(s.Value), false, true
+	}
+	if !violate && t.Default != nil && g.dfltPct > 0 && g.r.chance(g.dfltPct) {
+		// the declared default of the member itself: a boundary for every `!= default` guard
+		switch t.Default.(type) {
+		case string, bool, int, int64, float64:
+			return c09ConstJV(t.Default), false, true
+		}
 	}
 	switch s.ScalarKind {
 	case ast.KindBool:
@@ -450,7 +468,7 @@ func (g *c09Gen) plain(t ast.Type, depth int, violate bool) (v JV, violated bool
 		if et := t.Array.ValueType; et.Kind == ast.KindScalar && et.Scalar.ScalarKind == ast.KindUint8 && !et.Nullable {
 			return jNull(), false, false // []uint8 is []byte: encoding/json prints base64 (C01's finding, not a builder matter)
 		}
-		n := g.r.intn(3)
+		n := g.arrayLen()
 		if depth > 2 {
 			n = 0
 		}
@@ -533,6 +551,14 @@ func (g *c09Gen) structDoc(o ast.Object, depth int, violate bool) (JV, bool, boo
 			if f.Required {
 				out.set(f.Name, jNull())
 			}
+			continue
+		}
+		if v, ok := g.topHints[f.Name]; ok && depth == 0 {
+			out.set(f.Name, v)
+			continue
+		}
+		if hs := g.hints[o.Name+"."+f.Name]; len(hs) > 0 {
+			out.set(f.Name, hs[g.r.intn(len(hs))])
 			continue
 		}
 		v, vi, ok := g.plain(ft, depth+1, violate && !violated)
@@ -767,6 +793,37 @@ func c09Veneers(d *Defs, r *rng, pct int) (string, []string) {
 			case f.Ty.Kind == SArray && !f.Nullable:
 				opts = append(opts, fmt.Sprintf("  - array_to_append: { by_name: %s }", sel))
 				tags = append(tags, "array_to_append")
+				// a list of unions: one appending option per branch
+				if el := f.Ty.Elem; el != nil && (el.Kind == SOneOfStructs || el.Kind == SOneOfScalars) && r.chance(60) {
+					clash := scalarUnionFlattened[def.Name] && el.Kind == SOneOfScalars
+					for _, br := range el.Branches {
+						if branchOptions[def.Name+"."+strings.ToLower(br.Name)] {
+							clash = true
+						}
+						for _, g := range def.Ty.Fields {
+							if strings.EqualFold(g.Name, br.Name) {
+								clash = true
+							}
+						}
+					}
+					for _, g := range def.Ty.Fields {
+						for _, alt := range []string{"string", "bool", "int64", "float64", "int32", "float32"} {
+							if el.Kind == SOneOfScalars && strings.EqualFold(g.Name, alt) {
+								clash = true
+							}
+						}
+					}
+					if !clash {
+						if el.Kind == SOneOfScalars {
+							scalarUnionFlattened[def.Name] = true
+						}
+						for _, br := range el.Branches {
+							branchOptions[def.Name+"."+strings.ToLower(br.Name)] = true
+						}
+						opts = append(opts, fmt.Sprintf("  - disjunction_as_options: { by_name: %s }", sel))
+						tags = append(tags, "append+disjunction_as_options")
+					}
+				}
 			case f.Ty.Kind == SDict && !f.Nullable:
 				opts = append(opts, fmt.Sprintf("  - map_to_index: { by_name: %s }", sel))
 				tags = append(tags, "map_to_index")
@@ -1441,4 +1498,187 @@ func c09DeepVeneers(d *Defs, r *rng) string {
 		opts = append(opts, fmt.Sprintf("  - %s: { by_name: Widget.%s }", rule, opt))
 	}
 	return "language: all\npackage: %PKG%\noptions:\n" + strings.Join(opts, "\n") + "\n"
+}
+
+// c09ListDefs: a list of a union of structs (2..3 branches), to be rewritten into one appending
+// option per branch (array_to_append + disjunction_as_options)
+func c09ListDefs(r *rng) (*Defs, string) {
+	names := []string{"title", "name", "theme", "mode", "sort", "level", "size", "note", "ratio", "link", "count"}
+	used := map[string]bool{}
+	nm := func() string {
+		for {
+			n := pick(r, names)
+			if !used[n] {
+				used[n] = true
+				return n
+			}
+		}
+	}
+	scalar := func() *Src {
+		switch r.intn(3) {
+		case 0:
+			return srcInt(64, true, nil, nil)
+		case 1:
+			return srcBool()
+		}
+		return srcNum(64, nil, nil)
+	}
+	branchNames := []string{"Panel", "Row", "Graph"}
+	tags := []string{"panel", "row", "graph"}
+	nb := 2 + r.intn(2)
+	var branches []Branch
+	var items []Def
+	for i := 0; i < nb; i++ {
+		st := srcStruct(fld("kind", srcConst(jStr(tags[i])), true, false, nil))
+		for k := 0; k < 1+r.intn(2); k++ {
+			st.Fields = append(st.Fields, fld(nm(), scalar(), true, false, nil))
+		}
+		branches = append(branches, Branch{Tag: tags[i], Name: branchNames[i]})
+		items = append(items, Def{branchNames[i], st})
+	}
+	list := "items" + nm()
+	root := srcStruct(fld(nm(), scalar(), true, false, nil), fld(list, srcArray(srcOneOfStructs("kind", branches...)), r.chance(60), false, nil))
+	d := &Defs{Root: "Board", Items: append([]Def{{"Board", root}}, items...)}
+	y := "language: all\npackage: %PKG%\noptions:\n  - array_to_append: { by_name: Board." + list + " }\n  - disjunction_as_options: { by_name: Board." + list + " }\n"
+	return d, y
+}
+
+// c09StructDefaultDefs: a member referencing a struct, with a struct-level default that overrides
+// (shadows) the defaults the struct's own members declare; to be flattened into arguments
+func c09StructDefaultDefs(r *rng) (*Defs, string) {
+	words := []string{"now", "now-1h", "now-6h", "utc", "auto", "left", "right", "dark", "light"}
+	names := []string{"from", "to", "zone", "mode", "theme", "size", "level"}
+	used := map[string]bool{}
+	nm := func() string {
+		for {
+			n := pick(r, names)
+			if !used[n] {
+				used[n] = true
+				return n
+			}
+		}
+	}
+	inner := srcStruct()
+	over := jObj()
+	n := 2 + r.intn(2)
+	for i := 0; i < n; i++ {
+		name := nm()
+		if r.chance(50) {
+			own, top := pick(r, words), pick(r, words)
+			for top == own {
+				top = pick(r, words)
+			}
+			inner.Fields = append(inner.Fields, fld(name, srcString(), true, false, jvp(jStr(own))))
+			if i == 0 || r.chance(70) {
+				over.set(name, jStr(top))
+			}
+		} else {
+			own := int64(r.intn(50))
+			inner.Fields = append(inner.Fields, fld(name, srcInt(64, true, nil, nil), true, false, jvp(jInt(own))))
+			if i == 0 || r.chance(70) {
+				over.set(name, jInt(own+1+int64(r.intn(20))))
+			}
+		}
+	}
+	member := "range" + nm()
+	root := srcStruct(fld("title", srcString(), true, false, nil), fld(member, srcRef("Range"), true, false, jvp(over)))
+	d := &Defs{Root: "Root", Items: []Def{{"Root", root}, {"Range", inner}}}
+	return d, "language: all\npackage: %PKG%\noptions:\n  - struct_fields_as_arguments: { by_name: Root." + member + " }\n"
+}
+
+var c09InitRe = regexp.MustCompile(`initialize: \{ by_(object|name): (\w+), set: \[ \{ property: (\w+), value: "?([^" ]+)"? \} \] \}`)
+var c09DupRe = regexp.MustCompile(`duplicate: \{ by_(?:object|name): (\w+), as: (\w+)`)
+
+// c09VeneerHints: the values `initialize` rules pin, per "Object.member" (a builder created by a
+// `duplicate` rule builds the duplicated object)
+func c09VeneerHints(veneers string) map[string][]JV {
+	objOf := map[string]string{}
+	for _, m := range c09DupRe.FindAllStringSubmatch(veneers, -1) {
+		objOf[m[2]] = m[1]
+	}
+	out := map[string][]JV{}
+	for _, m := range c09InitRe.FindAllStringSubmatch(veneers, -1) {
+		obj := m[2]
+		if o, ok := objOf[obj]; ok && m[1] == "name" {
+			obj = o
+		}
+		v := jStr(m[4])
+		if n, err := strconv.ParseInt(m[4], 10, 64); err == nil && !strings.Contains(m[0], `"`+m[4]+`"`) {
+			v = jInt(n)
+		}
+		out[obj+"."+m[3]] = append(out[obj+"."+m[3]], v)
+	}
+	return out
+}
+
+// c09VariantDefs: an object built by several builders that each pin a constant in their
+// constructor (duplicate + initialize), some of them also taking a constructor argument
+// (promote_options_to_constructor); referenced as a member and as list elements
+func c09VariantDefs(r *rng) (*Defs, string) {
+	names := []string{"name", "value", "size", "level", "note", "mode", "ratio"}
+	used := map[string]bool{}
+	nm := func() string {
+		for {
+			n := pick(r, names)
+			if !used[n] {
+				used[n] = true
+				return n
+			}
+		}
+	}
+	disc := pick(r, []string{"kind", "type", "variant"})
+	q := srcStruct(fld(disc, srcString(), true, false, nil))
+	var strFields []string
+	for i := 0; i < 2+r.intn(2); i++ {
+		n := nm()
+		if i == 0 || r.chance(50) {
+			q.Fields = append(q.Fields, fld(n, srcString(), true, false, nil))
+			strFields = append(strFields, n)
+		} else {
+			q.Fields = append(q.Fields, fld(n, srcInt(64, true, nil, nil), true, false, nil))
+		}
+	}
+	root := srcStruct(fld("title", srcString(), true, false, nil))
+	if r.chance(70) {
+		root.Fields = append(root.Fields, fld("q"+nm(), srcRef("Query"), r.chance(50), false, nil))
+	}
+	root.Fields = append(root.Fields, fld("list"+nm(), srcArray(srcRef("Query")), false, false, nil))
+	d := &Defs{Root: "Root", Items: []Def{{"Root", root}, {"Query", q}}}
+	nv := 2 + r.intn(2)
+	tags := []string{"query", "const", "interval"}
+	var b strings.Builder
+	b.WriteString("language: all\npackage: %PKG%\nbuilders:\n")
+	bnames := []string{"Query"}
+	for i := 1; i < nv; i++ {
+		bn := "Query" + strings.ToUpper(tags[i][:1]) + tags[i][1:]
+		bnames = append(bnames, bn)
+		fmt.Fprintf(&b, "  - duplicate: { by_name: Query, as: %s }\n", bn)
+	}
+	for i, bn := range bnames {
+		fmt.Fprintf(&b, "  - initialize: { by_name: %s, set: [ { property: %s, value: \"%s\" } ] }\n", bn, disc, tags[i])
+	}
+	// the pinned member is not an option any more (it is what tells the builders apart)
+	opts := "options:\n"
+	for _, bn := range bnames {
+		opts += fmt.Sprintf("  - omit: { by_builder: %s.%s }\n", bn, disc)
+	}
+	// constructor arguments on some builders other than the first
+	for i := 1; i < nv; i++ {
+		if i == 1 || r.chance(50) {
+			fmt.Fprintf(&b, "  - promote_options_to_constructor: { by_name: %s, options: [%s] }\n", bnames[i], pick(r, strFields))
+		}
+	}
+	return d, b.String() + opts
+}
+
+// c09VeneerTopHints: the constants `initialize` rules pin for one builder (by_name) or for the
+// object it builds (by_object)
+func c09VeneerTopHints(veneers, builder, object string) map[string]JV {
+	out := map[string]JV{}
+	for _, m := range c09InitRe.FindAllStringSubmatch(veneers, -1) {
+		if (m[1] == "name" && m[2] == builder) || (m[1] == "object" && m[2] == object) {
+			out[m[3]] = jStr(m[4])
+		}
+	}
+	return out
 }
